@@ -20,6 +20,12 @@ SPEC DECISIONS (continuing Spec/Stream.lean)
      session when its header is complete; nothing of it is buffered.  A frame of length 0 carries no
      message.  As client the MASK bit only determines the header length (RFC 6455 §5.1 would have a
      client close on a masked frame; not a segmentation matter, not judged here).
+ D20 a NUL byte inside a handshake line: RFC 7230 §3 / RFC 9110 §5.5 have no NUL in a start line or a field
+     value and allow the recipient to reject the message.  S refuses it, and fixes WHEN: a line with a NUL in
+     front of its LF has no end — the bytes after the NUL, LF bytes included, belong to the same (malformed)
+     line — so the session is closed like for any over-long line once `maxLine + 1` bytes of it have arrived
+     (D18), and nothing behind it is ever looked at.  (libcoap: strchr() on the line buffer.)  A function of the
+     byte stream only, like the rest of S.
 -/
 namespace Coap.Spec.Stream.Ws
 open Coap Coap.Spec.Stream
@@ -43,10 +49,10 @@ structure Res where
   closed : Bool
   deriving DecidableEq, Repr
 
-/-- position of the first LF -/
+/-- position of the LF that ends the first line; a NUL byte in front of it: the line has no end (D20) -/
 def lfIndex : Bytes → Option Nat
   | [] => none
-  | b :: r => if b = 10 then some 0 else (lfIndex r).map (· + 1)
+  | b :: r => if b = 10 then some 0 else if b = 0 then none else (lfIndex r).map (· + 1)
 
 def stripCr (l : Bytes) : Bytes :=
   if l.getLast? = some 13 then l.dropLast else l
